@@ -180,6 +180,9 @@ fn print_values(rng: &mut Rng, p: &Profile, ks: &[i64]) -> Vec<String> {
         .collect()
 }
 
+/// The tool's own automatic comments: files saved with --oc carry them on declared lines.
+pub const TOOL_COMMENTS: [&str; 2] = ["Equilibrado de consumo sin producción declarada", "Reasignación automática de consumos auxiliares"];
+
 const PLAIN_WORDS: [&str; 12] = [
     "BdC 1", "Caldera", "PV", "ACS", "Equipo de calefacción COP 3", "n_gen=2.5 n_d+e+c=0.88", "Paneles solares térmicos 2m2",
     "Producción fotovoltaica in situ", "Energía entregada", "SISTEMA SECUNDARIO FC_P01_E01  ventiladores", "x", "Demanda anual",
@@ -189,7 +192,8 @@ const HOSTILE_BITS: [&str; 36] = [
     "\t", "I&D;", "AT&T;", "&#0;", "&#xZZ;", "&#12", "&lt", "&;", "&amp;amp;", "&quot;x&quot;", "</Comentario>", "<![CDATA[", "?>", "\u{feff}",
     "\u{fffd}",
 ];
-const CONTROL_BITS: [&str; 4] = ["\u{1}", "\u{8}", "\u{b}", "\u{1f}"];
+/// Characters that no XML 1.0 document can contain (counted with the C0 control-character class).
+const CONTROL_BITS: [&str; 8] = ["\u{1}", "\u{8}", "\u{b}", "\u{1f}", "\u{fffe}", "\u{ffff}", "\u{0}", "\u{c}"];
 
 /// A comment / metadata value: trimmed, no line breaks, never one of the tool's control tags.
 pub fn gen_text(rng: &mut Rng, hostile: bool, control: bool) -> String {
@@ -221,6 +225,9 @@ pub fn gen_text(rng: &mut Rng, hostile: bool, control: bool) -> String {
 }
 
 fn maybe_comment(rng: &mut Rng, p: &Profile) -> String {
+    if p.f_comments && rng.chance(0.04) {
+        return rng.pick(&TOOL_COMMENTS).to_string();
+    }
     if p.f_comments && rng.chance(0.7) {
         gen_text(rng, p.f_hostile_text, p.f_control_chars)
     } else {
@@ -488,7 +495,7 @@ pub fn gen_building(rng: &mut Rng, p: &Profile) -> Building {
         }
         let n_free = rng.usize(3);
         for i in 0..n_free {
-            let key = format!("{}{}", rng.pick(&["Name", "Datetime", "Weather_file", "CTE_FUENTE", "Nota"]), i);
+            let key = format!("{}{}", rng.pick(&["Name", "Datetime", "Weather_file", "CTE_FUENTE", "Nota", "Año", "Descripción_del_edificio", "名前", "Ñ"]), i);
             b.meta.push((key, gen_text(rng, p.f_hostile_text, p.f_control_chars)));
         }
         if rng.chance(0.3) {
